@@ -423,7 +423,7 @@ def tr_refined():
     if srcs[:3] != ['m = self', 'has_boundaries = self.boundaries is not None', 'has_subdomains = self.subdomains is not None']:
         raise TranslateError('refined: prologue ' + repr(srcs[:3]))
     top = body[3]
-    if not (isinstance(top, ast.If) and t2.src(top.test) == 'isinstance(times_or_ix, int)'):
+    if not (isinstance(top, ast.If) and t2.src(top.test) == 'np.ndim(times_or_ix) == 0'):
         raise TranslateError('refined: dispatch')
     if [t2.src(s) for s in top.orelse] != ['m = m._adaptive(times_or_ix)']:
         raise TranslateError('refined: adaptive branch')
@@ -591,6 +591,15 @@ Definition gen_tet_submap (cls : list nat) (j k : nat) : nat :=
   else rank_in_cls cls k + j * nt
        + match nth k cls 0 with 0 => 0 | 1 => count_cls cls 0 | _ => count_cls cls 0 + count_cls cls 1 end.''')
     for k in SECOND:
+        base = {'tri2': 'tri', 'quad2': 'quad', 'tet2': 'tet', 'hex2': 'hex'}[k]
+        via = 'ViaFromMesh' if sec[k]['via'] == 'from_mesh' else 'ViaCarry'
+        parts.append(f'Definition gen_{k}_via : via2 := {via}.')
+        if base == 'tet':
+            parts.append(f'Definition gen_{k}_submap (cls : list nat) (j k : nat) : nat :=\n'
+                         f'  match gen_{k}_via with ViaCarry => gen_tet_submap cls j k | ViaFromMesh => gen_fallback_index (length cls) j k end.')
+        else:
+            parts.append(f'Definition gen_{k}_submap (nt j k : nat) : nat :=\n'
+                         f'  match gen_{k}_via with ViaCarry => gen_{base}_submap nt j k | ViaFromMesh => gen_fallback_index nt j k end.')
         if sec[k]['via'] == 'from_mesh':
             parts.append(f'(* {SECOND[k][1]}._uniform = {SECOND[k][1]}.from_mesh({SECOND[k][2]}.from_mesh(self).refined()): '
                          f'no tags survive, Mesh.refined applies the generic fallback *)')
